@@ -16,10 +16,10 @@ func init() { Registry["C01"] = c01 }
 
 // compiled is one compilation of a program.
 type compiled struct {
-	o drive.Opt
-	p *Prog
-	e *eval.Expr
-	f *drive.Fetcher
+	o   drive.Opt
+	p   *Prog
+	e   *eval.Expr
+	f   *drive.Fetcher
 	cfg *eval.Config // the caller-side config the program was compiled with
 }
 
@@ -44,6 +44,7 @@ func c01(r *rep.Run) {
 	progs = append(progs, widePrograms(6)...)
 	progs = append(progs, extraPrograms()...)
 	progs = withMerged(progs, 5)
+	progs = append(progs, loneLeafPrograms()...)
 	r.Cov["programs_core"] = nCore
 	r.Cov["programs_rich"] = len(progs) - nCore
 
@@ -74,7 +75,7 @@ func c01(r *rep.Run) {
 					continue
 				}
 				for ev := 0; ev < evModes; ev++ {
-					o := drive.Opt{Undef: undef, Events: ev}
+					o := drive.Opt{Undef: undef, Events: ev, Infix: p.Infix}
 					cfg := h.NewConfig(pa.Vars, o)
 					e, err := h.Compile(cfg, pa.Src, eventCap(p.Size))
 					if err != nil {
@@ -355,7 +356,7 @@ func boolInt(b bool) int64 {
 func c01PackageEval(r *rep.Run, progs []*Prog, hs []*drive.Harness) {
 	var sel []*Prog
 	for _, p := range progs {
-		if p.Size <= 5 {
+		if p.Size <= 5 && !p.Infix { // the package-level Eval reads prefix notation
 			sel = append(sel, p)
 		}
 	}
